@@ -27,8 +27,8 @@ CLAIM = ("For every grammar of the families and every input up to 3 tokens the r
 NOTE = "Trusted: RefPEG's whitespace/comment skipping (documented: modifier state is dynamic and starts immediately after the previous match)."
 
 
-def insertions(comment):
-    ins = [" ", "\n", "\t", "  "]
+def insertions(comment, cr=False):
+    ins = [" ", "\n", "\t", "  "] + (["\r", "\r\n"] if cr else [])
     if comment == "line":
         ins += ["#z\n", " #z\n "]
     elif comment == "block":
@@ -64,7 +64,7 @@ def work(arg):
     try:
         for label, g, cfgs in items:
             ck = comment_kind(g)
-            ins = insertions(ck)
+            ins = insertions(ck, cr=any("\r" in r[1].get("ws", "") for r in g))
             alpha = gramgen.alphabet(g, foreign=False)
             for cfg in cfgs:
                 interp = refpeg.Interp(g, **{k: v for k, v in cfg.items() if k in diff.REF_KEYS})
@@ -88,6 +88,10 @@ def families(tier):
     cfgs = [{}, {"skipws": False}, {"ws": " "}]
     for label, g in gramgen.frules(tier):
         yield label, g, cfgs
+    # whitespace sets of several characters including carriage return; insertions then include '\r' and '\r\n'
+    for label, g in gramgen.frules("quick", gramgen.WS_SETS):
+        if any(r[1] for r in g) and not any(r[0] == "Comment" for r in g):
+            yield label + "|ws-sets", g, [{}]
     # small expression grammars with a Comment rule and repetition modifiers
     for size in ((1, 2) if tier == "quick" else (1, 2, 3)):
         for b in gramgen.bodies("quick", size):
